@@ -606,7 +606,9 @@ class World:
             _tls.deriv_rec = drec = None
         t0, t1 = self.tr.t_of_tau(op["t0"]), self.tr.t_of_tau(op["t1"])
         try:
-            F_out = self._call_update(obj, params, F_in, cb, t0, t1, use_regime,
+            # PyDRex gets its own copy: the reference model keeps the F that was handed in even
+            # if the library modifies its argument in place
+            F_out = self._call_update(obj, params, F_in.copy(), cb, t0, t1, use_regime,
                                       self.solver_kwargs())
             rec["status"] = "ok"
             rec["exc"] = None
@@ -719,7 +721,7 @@ class World:
         _tls.solver_count = cnt = {}
         try:
             F_out = pydrex.update_all(
-                [m.obj for m in ms], self._params_for_call(qi), F_in, cb.L, (t0, t1, cb.pos),
+                [m.obj for m in ms], self._params_for_call(qi), F_in.copy(), cb.L, (t0, t1, cb.pos),
                 get_regime=cb.regime if rf is not None else None, **kw,
             )
             rec["status"] = "ok"
